@@ -3,6 +3,7 @@ package sx
 import (
 	"fmt"
 	"go/types"
+	"strconv"
 	"strings"
 )
 
@@ -650,6 +651,14 @@ func init() {
 	})
 	RegisterIntrinsic("strconv.ParseUint", func(x *Exec, s *State, c *CallCtx) Value {
 		base, bits := c.Args[1].(*Term), c.Args[2].(*Term)
+		if cs, ok := x.concreteStr(c.Args[0].(*StrVal)); ok && base.IsConst() && bits.IsConst() {
+			v, err := strconv.ParseUint(cs, int(base.K), int(bits.K))
+			if err != nil {
+				// like the real function: the maximum value on a range error, 0 on a syntax error
+				return &TupleVal{E: []Value{x.tb.BV(64, v), x.newError(s, x.str("strconv.ParseUint: parsing error"))}}
+			}
+			return &TupleVal{E: []Value{x.tb.BV(64, v), x.zero(errorType)}}
+		}
 		if !base.IsConst() || base.K != 10 || !bits.IsConst() {
 			x.fail("strconv.ParseUint: only base 10 with a constant bit size is supported")
 		}
